@@ -1,4 +1,5 @@
 import IgVerif.Model.Macro
+import IgVerif.Lemmas.Expand
 /-!
 # C08 — `#` produces a string literal that spells its argument
 -/
@@ -79,5 +80,73 @@ example : stringify [34, 113, 92, 34, 114, 34] = [34, 92, 34, 113, 92, 92, 92, 3
 example : stringify [39, 34, 39, 32, 34, 115, 92, 110, 34]
     = [34, 39, 92, 34, 39, 32, 92, 34, 115, 92, 92, 110, 92, 34, 34] := by decide
 example : wellLexed SState.init [34, 113, 92, 34, 114, 34] = true := by decide
+
+/-! ## one level of expansion (`Model/Expand.lean`: `save_expansion` + `r_expand`) -/
+open IgVerif.Exp in
+/-- **A literal in a macro body is opaque.** While the body of a `#define` is cut into nodes,
+a string literal — or a character literal, i.e. an apostrophe not preceded by a digit or
+letter — is appended to the chunk being collected exactly as written: parameter names, `#`,
+`##` and blanks inside it have no effect. -/
+theorem c08_literal_opaque (names : List (List Nat)) (variadic : Option Nat) (fuel : Nat) (q : Nat) (body rest : List Nat)
+    (prev : Option Nat) (cur : List Nat) (str paste : Bool) (nodes : List Node)
+    (hq : q = 34 ∨ (q = 39 ∧ prevAlnum prev = false)) (hb : ∀ c ∈ body, c ≠ q ∧ c ≠ 92) :
+    save names variadic (fuel + 1) (q :: (body ++ q :: rest)) prev cur str paste nodes =
+      save names variadic fuel rest (some q) (cur ++ q :: (body ++ [q])) str paste nodes :=
+  save_literal names variadic fuel q body rest prev cur str paste nodes hq hb
+
+open IgVerif.Exp in
+/-- consequently a macro whose body is one string literal expands to that literal, whatever
+its parameters are called and whatever arguments it is given -/
+theorem c08_literal_body (names : List (List Nat)) (variadic : Option Nat) (body : List Nat) (args : List (List Nat))
+    (hb : ∀ c ∈ body, c ≠ 34 ∧ c ≠ 92) :
+    expandOnce names variadic (34 :: (body ++ [34])) args = 34 :: (body ++ [34]) := by
+  unfold expandOnce saveExpansion
+  have h := save_literal names variadic (34 :: (body ++ [34])).length 34 body [] none [] false false [] (Or.inl rfl) hb
+  simp only [List.nil_append] at h
+  rw [h]
+  cases hl : (34 :: (body ++ [34])).length with
+  | zero => simp at hl
+  | succ n => simp [save, flush, rExpand, rExpandGo, addText]
+
+open IgVerif.Exp in
+/-- `#define S(x) #x`: `S(arg)` is `stringify arg` (whose value `c08_stringify_roundtrip` gives) -/
+theorem c08_stringify_param (arg : List Nat) :
+    expandOnce [[120]] none [35, 120] [arg] = stringify arg := by
+  have hs : saveExpansion [[120]] none [35, 120] = [.param 0 true false true] := by decide
+  unfold expandOnce
+  rw [hs]
+  have hne : (stringify arg).isEmpty = false := by simp [stringify]
+  simp [rExpand, rExpandGo, addSubst, hne]
+
+open IgVerif.Exp in
+/-- `#define ID(x) x`: `ID(a)` is `a` -/
+theorem c08_identity_param (arg : List Nat) : expandOnce [[120]] none [120] [arg] = arg := by
+  have hs : saveExpansion [[120]] none [120] = [.param 0 false false true] := by decide
+  unfold expandOnce
+  rw [hs]
+  cases arg with
+  | nil => simp [rExpand, rExpandGo]
+  | cons a as => simp [rExpand, rExpandGo, addSubst]
+
+open IgVerif.Exp in
+/-- `#define CAT(a, b) a ## b`: `CAT(x, y)` is `x` and `y` joined without a blank, for all
+arguments — an empty one (a placemarker) leaves the other as it is -/
+theorem c08_paste_params (x y : List Nat) : expandOnce [[97], [98]] none [97, 32, 35, 35, 32, 98] [x, y] = x ++ y := by
+  have hs : saveExpansion [[97], [98]] none [97, 32, 35, 35, 32, 98] = [.param 0 false false false, .param 1 false true true] := by decide
+  unfold expandOnce
+  rw [hs]
+  cases x with
+  | nil =>
+    cases y with
+    | nil => simp [rExpand, rExpandGo]
+    | cons b bs => simp [rExpand, rExpandGo, addSubst]
+  | cons a as =>
+    cases y with
+    | nil => simp [rExpand, rExpandGo, addSubst]
+    | cons b bs => simp [rExpand, rExpandGo, addSubst]
+
+-- `#define RED "#FF0000"` and `#define F(x) "x" x` with F(1), as C++ has them
+example : Exp.expandOnce [] none [34, 35, 70, 70, 48, 48, 48, 48, 34] [] = [34, 35, 70, 70, 48, 48, 48, 48, 34] := by decide
+example : Exp.expandOnce [[120]] none [34, 120, 34, 32, 120] [[49]] = [34, 120, 34, 32, 49] := by decide
 
 end IgVerif.C08
